@@ -1,5 +1,5 @@
 //verif:pkg internal/spynode
-//verif:kit memstore nodekit synckit worldkit
+//verif:kit memstore nodekit synckit worldkit interleave
 package spynode
 
 // C12 — untrusted peers cannot alter the chain, vouch for transactions or
